@@ -140,7 +140,16 @@ class Decision(object):
             if self.result is not None:
                 return
             if isinstance(st, ast.If):
-                taken = self.test(st.test)
+                try:
+                    taken = self.test(st.test)
+                except Undecidable:
+                    # a test on something the decision does not depend on (no tracked name in it, and nothing tracked
+                    # assigned or tested under it) is not part of the decision: stepped over in lenient mode
+                    tracked = set(self.values) | set(self.facts)
+                    inner = {norm(x) for x in ast.walk(st) if isinstance(x, (ast.Name, ast.Attribute))}
+                    if getattr(self, "lenient", False) and not (tracked & inner):
+                        continue
+                    raise
                 self.trace.append((st, taken))
                 self.run(st.body if taken else st.orelse)
             elif isinstance(st, ast.Assign) and len(st.targets) == 1 and isinstance(st.value, ast.Constant):
